@@ -36,8 +36,13 @@ class HarnessError(Exception):
     pass
 
 
+class SkipTV(Exception):
+    """raised by a scenario whose concrete branch is written against plain NumPy (not meaningful through the shim)"""
+
+
 class Obligation(object):
     def __init__(self, label, form, status, seconds=0.0, detail=None, model_inputs=None, note=''):
+        self.group = None
         self.label = label
         self.form = form            # 'I' identity, 'II' chain, 'III' certificate, 'IV' logic, 'S' shape/metadata
         self.status = status        # 'unsat'(held) | 'sat'(counterexample) | 'unknown' | 'held' | 'failed'
@@ -47,7 +52,7 @@ class Obligation(object):
         self.note = note
 
     def asdict(self):
-        return {'label': self.label, 'form': self.form, 'status': self.status, 'seconds': round(self.seconds, 3),
+        return {'label': self.label, 'group': self.group, 'form': self.form, 'status': self.status, 'seconds': round(self.seconds, 3),
                 'detail': self.detail, 'note': self.note, 'model_inputs': self.model_inputs}
 
 
@@ -87,6 +92,23 @@ class Ctx(object):
         self.dump = None          # conc mode: label -> out values (for translation validation)
         self.expect_outs = None   # tv mode: label -> out values of the plain run
         self.explorer = None
+
+    # ------------------------------------------------------------------ groups
+    def group(self, label):
+        """obligations created inside the block are detailed (symbolic) parts of ONE claim that the concrete mode checks under
+        `label`; a counterexample of a part is confirmed by a replay in which the obligation `label` fails"""
+        ctx = self
+
+        class _G(object):
+            def __enter__(self_g):
+                self_g.n0 = len(ctx.obligations)
+
+            def __exit__(self_g, *a):
+                for ob in ctx.obligations[self_g.n0:]:
+                    if ob.group is None:
+                        ob.group = label
+                return False
+        return _G()
 
     # ------------------------------------------------------------------ inputs
     def input(self, name, shape, cplx=False, lo=None, hi=None, nonzero=False):
